@@ -145,9 +145,17 @@ def _leaf_weighting(draw, shape, kind, custom=True, p2only=False):
     if int(np.prod(shape, dtype=int)) <= 400:
         # (array weights are explicit data in the descriptor)
         kinds += ['array', 'array']
+    else:
+        kinds += ['array-gen', 'array-gen']
     if custom:
         kinds += ['custom']
     wk = draw(st.sampled_from(kinds))
+    if wk == 'array-gen':
+        # large spaces: the weights are expanded from a drawn seed
+        w = {'type': 'array', 'gen': {'seed': draw(st.integers(0, 2 ** 31 - 1))}}
+        if draw(st.booleans()):
+            w['as64'] = True
+        return w
     if wk == 'custom':
         return {'type': 'custom',
                 'which': 'inner' if p2only else draw(st.sampled_from(
@@ -160,14 +168,16 @@ def _leaf_weighting(draw, shape, kind, custom=True, p2only=False):
 
 
 @st.composite
-def _tensor_leaf(draw, kind, size=None, dtype=None, p2only=False):
+def _tensor_leaf(draw, kind, size=None, dtype=None, p2only=False,
+                 shape=None):
     dtype = dtype or draw(st.sampled_from(DTYPES[kind]))
     narrow = dtype in ('int8', 'uint8')
     if size is None:
         size = draw(st.sampled_from([1, 2, 3, 4, 5, 7] if narrow
                                     else vs.SIZE_STRATA))
-    shape = list(draw(vs.shapes_for_size(
-        size, max_ndim=3 if size < 1000 else 2)))
+    if shape is None:
+        shape = list(draw(vs.shapes_for_size(
+            size, max_ndim=3 if size < 1000 else 2)))
     w = draw(_leaf_weighting(shape, kind, custom=size < 1000,
                              p2only=p2only))
     if p2only or (w is not None and w['type'] == 'custom'):
@@ -369,6 +379,12 @@ def _space(draw):
         if kind == 'int':
             kind = 'real'
         size = draw(st.sampled_from(vs.LARGE_SIZES))
+        if draw(st.integers(0, 3)) == 0:
+            # one axis alone crosses the size threshold: size-dependent code
+            # paths must be chosen by the entry count, not by len(x)
+            k = draw(st.sampled_from([2, 3]))
+            shape = list(draw(st.permutations([size, k])))
+            return kind, draw(_tensor_leaf(kind, size=size * k, shape=shape))
         return kind, draw(_tensor_leaf(kind, size=size))
     if sk == 'tensor':
         return kind, draw(_tensor_leaf(kind))
